@@ -680,6 +680,12 @@ class EventManager(MpfController):
                 callback(**kwargs)
             return
 
+        # a "queue" in the posted kwargs is the wait cell of another queue event's
+        # dispatcher (e.g. a mode started by a queue event passes its start kwargs
+        # on to mode_<name>_starting). it must not be shared with the handlers of
+        # this event: two dispatchers sleeping on one cell lose each other's wake-up.
+        posted_kwargs = {k: v for k, v in kwargs.items() if k != 'queue'}
+
         # Now let's call the handlers one-by-one, including any kwargs
         for handler in self.registered_handlers[event][:]:
             # use slice above so we don't process new handlers that came
@@ -687,7 +693,7 @@ class EventManager(MpfController):
 
             # merge the post's kwargs with the registered handler's kwargs
             # in case of conflict, handlers kwargs will win
-            merged_kwargs = dict(list(kwargs.items()) + list(handler.kwargs.items()))
+            merged_kwargs = dict(list(posted_kwargs.items()) + list(handler.kwargs.items()))
 
             # if condition exists and is not true skip
             if handler.condition is not None and not handler.condition.evaluate(merged_kwargs):
